@@ -136,10 +136,13 @@ def _hook(event: str, args) -> None:  # noqa: C901
             return
         if not rel:
             return
+        # in_cs: this process may hold a cache lock while the event executes.  The hook runs BEFORE
+        # the operation: at flock(EX) nothing is held yet, at flock(UN) the lock is still held.
+        if event == "open" and rel.endswith(".lock"):
+            _LOCKED = False  # a new acquire attempt: the previous one failed (or nothing is held)
+        in_cs = _LOCKED
         if event == "fcntl.flock":
             _LOCKED = detail != "UN"
-        elif event == "open" and rel.endswith(".lock"):
-            _LOCKED = False  # a new acquire attempt: the previous one failed (or nothing is held)
         _NEV += 1
         kill_at = CFG.get("kill_at")
         tag = f"{event}{':' + detail if detail else ''}"
@@ -150,12 +153,14 @@ def _hook(event: str, args) -> None:  # noqa: C901
         _log(f"{_IDX} {os.getpid()} {_NEV} {tag} {rel}")
         sched = CFG.get("sched") or {}
         kind = sched.get("kind", "none")
-        in_cs = _LOCKED and event != "fcntl.flock"
         if kind == "random":
             assert _RNG is not None
             q = _RNG.choice(sched.get("quanta_ms", [0, 1, 5, 50]))
-            only = sched.get("only")  # optional restriction to some event kinds
-            if q and (not only or event in only):
+            if in_cs:
+                # a stall inside the lock only serialises the others; keep it short so that nobody
+                # can be starved past filelock's 10 s wall-clock timeout by the harness
+                q = min(q, sched.get("in_lock_max_ms", 5))
+            if q:
                 time.sleep(q / 1000.0)
         elif kind == "hold":
             # systematic sweep: child `who` is held at its k-th event until all others finished
@@ -163,7 +168,7 @@ def _hook(event: str, args) -> None:  # noqa: C901
                 if in_cs:
                     # never starve the others past the lock timeout: bounded stall inside the lock
                     _log(f"{_IDX} {os.getpid()} {_NEV} HOLD-IN-LOCK {rel}")
-                    time.sleep(sched.get("in_lock_ms", 300) / 1000.0)
+                    time.sleep(sched.get("in_lock_ms", 250) / 1000.0)
                 else:
                     _log(f"{_IDX} {os.getpid()} {_NEV} HOLD {rel}")
                     t_end = time.monotonic() + sched.get("max_s", 8.0)
@@ -181,7 +186,8 @@ def _hook(event: str, args) -> None:  # noqa: C901
                     pass
                 _log(f"{_IDX} {os.getpid()} {_NEV} RDV-WAIT {rel}")
                 n = sched["n"]
-                t_end = time.monotonic() + sched.get("wait_ms", 600) / 1000.0
+                # inside a lock the others cannot arrive anyway: token wait only
+                t_end = time.monotonic() + (20 if in_cs else sched.get("wait_ms", 600)) / 1000.0
                 while time.monotonic() < t_end:
                     arrived = sum(
                         1 for j in range(n)
@@ -256,8 +262,16 @@ def sample_evenly(seq, n):
     return [seq[(i * len(seq)) // n] for i in range(n)]
 
 
-def query_parts(mode: str) -> dict:
-    """The query set of the property: every answer comes from the public API of spsdk.utils.database."""
+def _rot(seq: list, r: int) -> list:
+    r = r % len(seq) if seq else 0
+    return seq[r:] + seq[:r]
+
+
+def query_parts(mode: str, rot: int = 0) -> dict:
+    """The query set of the property: every answer comes from the public API of spsdk.utils.database.
+
+    ``rot`` rotates the ORDER in which devices, schemas and data files are asked for (concurrent children then
+    build and merge different data caches); the digest does not depend on the order."""
     import spsdk
     from spsdk.utils import database as D
 
@@ -283,7 +297,7 @@ def query_parts(mode: str) -> dict:
     # predecessor (old) names resolve through the quick info
     olds = sorted(qi.devices.predecessor_lookup)[:3]
     dbp = {}
-    for name in devs + olds:
+    for name in _rot(devs + olds, rot):
         device = D.get_device(name)
         rec = {"latest": device.latest_rev, "info": device.info, "revs": {}}
         for rev in device.revisions.revision_names(append_latest=True):
@@ -301,7 +315,7 @@ def query_parts(mode: str) -> dict:
     sch_dir = os.path.join(spsdk.SPSDK_DATA_FOLDER, "jsonschemas")
     sch_all = sorted(f[4:-5] for f in os.listdir(sch_dir) if f.startswith("sch_") and f.endswith(".yaml"))
     schemas = sample_evenly(sch_all, 6 if mode == "full" else 2)
-    parts["schemas"] = h({s: D.get_schema_file(s) for s in schemas})
+    parts["schemas"] = h({s: D.get_schema_file(s) for s in _rot(schemas, rot)})
     # data files through the caching loader
     files = []
     for name in devs:
@@ -313,7 +327,7 @@ def query_parts(mode: str) -> dict:
                 files.append(os.path.join(ddir, cand[0]))
     files = files[: 6 if mode == "full" else 2]
     db = D.get_whole_db()
-    parts["cfg_files"] = h({os.path.relpath(f, spsdk.SPSDK_DATA_FOLDER): db.load_db_cfg_file(f) for f in files})
+    parts["cfg_files"] = h({os.path.relpath(f, spsdk.SPSDK_DATA_FOLDER): db.load_db_cfg_file(f) for f in _rot(files, rot)})
     dfl = {}
     for feat in D.FeaturesEnum:
         try:
@@ -348,7 +362,7 @@ def barrier_wait() -> None:
     with open(os.path.join(bdir, f"ready.{_IDX}"), "w"):
         pass
     go = os.path.join(bdir, "go")
-    t_end = time.monotonic() + 60
+    t_end = time.monotonic() + 150
     while not os.path.exists(go):
         if time.monotonic() > t_end:
             sys.exit(97)
@@ -422,6 +436,9 @@ def run_prefixes() -> dict:  # noqa: C901
     def outcome(k):
         res["outcomes"][k] = res["outcomes"].get(k, 0) + 1
 
+    import logging
+
+    db_logger = logging.getLogger(D.__name__)
     if which == "Q":
         qpath = D.DatabaseManager._get_quick_info_db_path()
         # reference: a complete load in this very process (cache file absent)
@@ -434,6 +451,7 @@ def run_prefixes() -> dict:  # noqa: C901
         if h(quick_info_form(pickle.loads(full))) != ref_form:
             res["skew"].append({"len": len(full), "what": "complete cache file differs from a complete load"})
         cur_hash = D.DatabaseManager._quick_info.db_hash
+        ref_pickle = pickle.dumps(D.DatabaseManager._quick_info, 4)
         for ln in lengths:
             res["n"] += 1
             blob = full[:ln]
@@ -441,6 +459,9 @@ def run_prefixes() -> dict:  # noqa: C901
                 f.write(blob)
             D.DatabaseManager._instance = None
             D.DatabaseManager._quick_info = None
+            # DatabaseManager.__new__ installs one more log handler per (re)creation: with the
+            # singleton reset thousands of times they would pile up (harness artefact, quadratic cost)
+            del db_logger.handlers[1:]
             try:
                 D.DatabaseManager()
             except BaseException as e:  # pylint: disable=broad-except
@@ -450,7 +471,8 @@ def run_prefixes() -> dict:  # noqa: C901
                 outcome("escape:" + s["type"])
                 continue
             qi = D.DatabaseManager._quick_info
-            if h(quick_info_form(qi)) != ref_form:
+            # fast path: same construction path => same pickle bytes; otherwise compare canonical forms
+            if pickle.dumps(qi, 4) != ref_pickle and h(quick_info_form(qi)) != ref_form:
                 res["skew"].append({"len": ln, "what": "quick info returned by the loader differs from a complete load"})
             with open(qpath, "rb") as f:
                 disk = f.read()
@@ -613,7 +635,12 @@ def main() -> int:
     _T_ARMED = True
     try:
         if mode == "digest":
-            parts = query_parts(CFG.get("queries", "full"))
+            parts = query_parts(CFG.get("queries", "full"), int(CFG.get("rot", 0)))
+            if CFG.get("extra_files"):  # cached by this start, not part of the digest
+                from spsdk.utils import database as D
+
+                for xf in CFG["extra_files"]:
+                    D.get_whole_db().load_db_cfg_file(xf)
             res = {"digest": digest_of(parts), "parts": parts, "events": _NEV, "pid": os.getpid()}
         elif mode == "prefixes":
             res = run_prefixes()
